@@ -175,9 +175,10 @@ const _: () = {
                     type Error = ErrorMessage;
 
                     fn from_param(param: Cow<'p, str>) -> Result<Self, Self::Error> {
-                        ::byte_reader::Reader::new(param.as_bytes())
-                            .read_uint()
-                            .map(|i| Self::try_from(i).ok())
+                        /* the whole segment must denote an in-range integer:
+                           neither a numeric prefix (`12abc`) nor a wrapped-around value is acceptable */
+                        (!param.starts_with('+'))
+                            .then(|| param.parse::<Self>().ok())
                             .flatten()
                             .ok_or_else(|| ErrorMessage(format!("Unexpected path param")))
                     }
@@ -198,9 +199,10 @@ const _: () = {
                     type Error = ErrorMessage;
 
                     fn from_param(param: Cow<'p, str>) -> Result<Self, Self::Error> {
-                        ::byte_reader::Reader::new(param.as_bytes())
-                            .read_int()
-                            .map(|i| Self::try_from(i).ok())
+                        /* the whole segment must denote an in-range integer:
+                           neither a numeric prefix (`12abc`) nor a wrapped-around value is acceptable */
+                        (!param.starts_with('+'))
+                            .then(|| param.parse::<Self>().ok())
                             .flatten()
                             .ok_or_else(|| ErrorMessage(format!("Unexpected path param")))
                     }
